@@ -42,9 +42,12 @@ def oracle(res):
             if th in shut and r["t"] - c["t"] > 10000:
                 out.append("a shut-down thread blocked for %d us (> 10 ms) in semaphore wait" % (r["t"] - c["t"]))
             continue
-        if c["op"] != "sleep":
+        if c["op"] not in ("sleep", "sleepd"):
             continue
         us = c["args"][0]
+        if th in shut and r["t"] - c["t"] > 10000:
+            out.append("a shut-down thread blocked for %d us (> 10 ms)" % (r["t"] - c["t"]))
+            continue
         if r["r"] == 0:
             if us == "inf":
                 out.append("infinite sleep returned 0")
@@ -57,8 +60,6 @@ def oracle(res):
         else:
             e = r["e"]
             if th in shut and e == 1:
-                if r["t"] - c["t"] > 10000:
-                    out.append("a shut-down thread blocked for %d us (> 10 ms)" % (r["t"] - c["t"]))
                 continue
             during = [(i, ee) for (i, t, ee) in intrs if c["i"] < i < r["i"] and t == th and ee == e]
             if not during:
@@ -106,7 +107,7 @@ def run(rep, tier, seed, replay=None):
     for res in results:
         nev += len(res.trace)
         for c, r in sync_eval.calls_with_rets(res.trace):
-            if r is not None and c["op"] in ("sleep", "yield", "waiti"):
+            if r is not None and c["op"] in ("sleep", "sleepd", "yield", "waiti"):
                 rep.distinct((c["op"], c["args"][0] if c["args"] else "", r["r"], r["e"]))
     rep.count(nev)
     rep.cov["events"] = nev
